@@ -5,7 +5,7 @@ ENG = dict(ISPOS, **{'Clipper2Lib::ClipperBase::AddPaths(': 'stub_addpaths', 'Cl
 META = dict(
   level_text='Bounded model checking of the real detail::Minkowski for all coordinates up to 2^40 on small pattern/path sizes: the result is exactly the set of parallelograms (pattern edge x path edge, closing edge iff closed, sum or difference), each oriented non-negatively, with every integer operation asserted free of signed overflow; and MinkowskiSum/Diff pass exactly those quads to a NonZero union (stub-and-observe).',
   level_note='IsPositive(quad) is replaced by a recorder returning an arbitrary verdict (the obligation is: the forward quad is handed to it, and the quad is reversed exactly when the verdict is negative); that IsPositive itself has the sign of the exact area is trusted up to double rounding (Area exactness could not be decided, see C18). If the orientation test is not routed through IsPositive the harness falls back to asserting exact non-negative area of every returned quad. That the union equals the swept region is C01\'s subject.',
-  functions=['detail::Minkowski', 'MinkowskiSum(Path64)', 'MinkowskiDiff(Path64)', 'detail::Union'],
+  functions=['detail::Union (second call)', 'detail::Minkowski', 'MinkowskiSum(Path64)', 'MinkowskiDiff(Path64)', 'detail::Union'],
   assumptions=['pattern and path of 2-3 points', '|coordinates| <= 2^40'],
   outside=['the union itself (C01)', 'PathD overloads (scaling: C16)', 'longer patterns/paths'],
 )
